@@ -109,3 +109,54 @@ for _w in EOLSETS:
         def _b(B):
             parse_line_prefix_stable(B, w)
     _mk()
+
+
+# ------------------------------------------------------------------ resumption: state carried across a wait must not matter
+
+def parse_line_resume(B, which):
+    """additivity of one wait: running on b, waiting, receiving e, resuming  ==  one fresh activation on b ++ e.
+    (Catches parser state that survives a `yield None`, e.g. a remembered search offset.)"""
+    eols = EOLSETS[which]
+    b, e = B.bytes("b"), B.bytes("e")
+    be = E.binop(B.ctx, __import__("ast").Add(), b, e)
+    buf = B.buf(b, hint="raw_two_step")
+    waits = {"n": 0}
+
+    def handler(interp, fr, node, value):
+        if value is None and waits["n"] == 0:
+            waits["n"] += 1
+            # environment step while suspended: the transport appends e to the shared buffer
+            st = interp.ctx.st(buf)
+            st["v"] = E.binop(interp.ctx, __import__("ast").Add(), st["v"], e)
+            return None                      # resumed (next()/send(None))
+        raise Suspend(value, node)
+    B.outcome = None
+    B.call(buf, eols=eols, qual=HTTPING + ":parseLine", yield_handler=handler)
+    o2 = B.outcome
+    rest2 = B.ctx.st(buf)["v"]
+    if waits["n"] == 0:
+        B.handled = True
+        return                               # first activation already made progress: covered by the step contract
+    k1, l1, r1 = run_step(B, be, eols, "fresh")
+    props = {"crlf": ["C13", "C17", "C15"], "crlf_lf": ["C13"], "crlf_lf_cr": ["C15"]}[which]
+    if k1 == "line":
+        B.prove("resumed-parser-finds-the-same-line", o2[0] == "yield" and o2[1] is not None, top=True, props=props)
+        if o2[0] == "yield" and o2[1] is not None:
+            B.prove("same-line-as-a-fresh-parser", z(o2[1]) == z(l1), top=True, props=props)
+            B.prove("same-rest-as-a-fresh-parser", z(rest2) == z(r1), top=True, props=props)
+    elif k1 == "wait":
+        B.prove("resumed-parser-also-waits", o2[0] == "yield" and o2[1] is None, top=True, props=props)
+        B.prove("buffer-untouched", z(rest2) == z(be), top=True, props=props)
+    else:
+        B.prove("same-error-as-a-fresh-parser", o2[0] == "raise", top=True, props=props + ["C16"])
+    B.handled = True
+    B.no_other_exception()
+
+
+for _w in EOLSETS:
+    def _mk2(w=_w):
+        @contract(HTTPING + ":parseLine", props={"crlf": ["C13", "C17", "C15"], "crlf_lf": ["C13"], "crlf_lf_cr": ["C15"]}[w],
+                  name=HTTPING + ":parseLine[resume after wait, eols=%s]" % w, z3_ms=1500)
+        def _c(B):
+            parse_line_resume(B, w)
+    _mk2()
